@@ -400,16 +400,13 @@ func (x *c19ctx) probeDebug(L *c19Launch, addr string) c19Obs {
 	if o := c19RoundTrip(addr); o.inconclusive || o.state != "" {
 		return o
 	}
-	// "Received opcode" is logged before the answer is written, so it is on disk by now; the short
-	// poll only covers the asynchronous start-up debug lines.
+	// the short poll covers asynchronous debug lines
 	for i := 0; ; i++ {
 		out := L.p.Stderr()
 		if c19DbgLvl.MatchString(out) {
-			st := "log:debug-lines"
-			if !strings.Contains(out, "Received opcode") {
-				st = "log:debug-lines-but-no-request-line"
-			}
-			return c19Obs{state: st}
+			// which records exist at debug level, and their texts, is the implementation's business:
+			// the setting is in force when records of that level are written at all
+			return c19Obs{state: "log:debug-lines"}
 		}
 		if i >= 10 {
 			return c19Obs{state: "log:no-debug-lines"}
